@@ -420,6 +420,7 @@ where
                     return Entry::Occupied(OccupiedEntry {
                         node: &mut self.table[idx],
                         prefix,
+                        count: &mut self.count,
                     })
                 }
                 direction => {
